@@ -60,7 +60,7 @@ def gen_tree(rng, prefix, depth, fanout, budget, classes, sizes, stats=None, all
 
 
 def basic_project(rng, cid, tier, classes=None, stats=None, n_stages=None, allow_skip=True, allow_norec=True,
-                  allow_inputs=True, dir_inputs=False):
+                  allow_inputs=True, dir_inputs=False, wide=False):
     """A project with 1-3 independent stages: directory / file / non-recursive / skip-cache outputs,
     plain file inputs."""
     thorough = tier == "thorough"
@@ -81,6 +81,11 @@ def basic_project(rng, cid, tier, classes=None, stats=None, n_stages=None, allow
                 budget = [rng.choice([3, 8, 25] if not thorough else [5, 20, 80])]
                 init += gen_tree(rng, p, rng.choice([1, 2, 4] if not thorough else [2, 4, 6]),
                                  rng.choice([2, 5, 12] if not thorough else [3, 10, 40]), budget, classes, sizes, stats)
+                if wide and k == "dir":
+                    # more objects than the shared worker pool / the chmod fan-out threshold (64)
+                    for j in range(rng.choice([70, 100, 131])):
+                        init.append(("file", p + b"/wide%03d.dat" % j, "g:%d:%d" % (rng.randrange(100000), rng.choice([1, 9, 40]))))
+                    wide = False
                 outs.append((p, "dr" if k == "norec" else "d"))
             elif k == "file":
                 p = base + b"_f.bin"
@@ -257,7 +262,13 @@ def pipeline_project(rng, cid, n, cyclic=False, tier="quick", all_edges=None):
                 ins.append((outpath[j], ""))
                 args_in.append(outpath[j])
         has_src = rng.random() < 0.6 or not ins
-        if has_src and rng.random() < 0.85:
+        shared_src = [e for e in init if e[0] == "file" and e[1].startswith(b"src/")]
+        if has_src and shared_src and rng.random() < 0.3:
+            # several stages read the same plain file
+            sp = rng.choice(shared_src)[1]
+            ins.append((sp, ""))
+            args_in.append(sp)
+        elif has_src and rng.random() < 0.85:
             sp = b"src/s%d.txt" % i
             init.append(("file", sp, "g:%d:%d" % (rng.randrange(1000), rng.choice([0, 3, 40, 70000] if tier == "thorough" else [0, 3, 40]))))
             ins.append((sp, ""))
